@@ -10,9 +10,12 @@ through a fake procfs, read by the REAL `psutil.Process` methods (front end → 
 parsing) and compared with the Lean model and with the specification the driver prints alongside.
 """
 import ctypes
+import glob as _real_glob
 import os
 import re
+import shutil
 import signal
+import tempfile
 from fractions import Fraction
 
 from harness.common import fakeproc
@@ -168,6 +171,105 @@ def gen_tmap(rng):
     return out
 
 
+def gen_dev(rng, want=()):
+    """An abstract /dev as the two globs list it: [[hexpath, kind, rdev]]; kind chr / other / vanished.
+    `want` = device numbers that should (usually) be present."""
+    out, used = [], set()
+    names = ["/dev/tty", "/dev/tty0", "/dev/tty1", "/dev/tty63", "/dev/ttyS0", "/dev/ttyUSB0", "/dev/ttyprintk",
+             "/dev/pts/0", "/dev/pts/1", "/dev/pts/17", "/dev/pts/ptmx", "/dev/pts/204"]
+    rng.shuffle(names)
+    nums = list(want) + [1025, 34816, 34817, 34833, 1088, 1280, 1282, 136 * 256 + 204, rng.randrange(1, 2 ** 20)]
+    for nm in names[:rng.randrange(0, 8)]:
+        r = rng.random()
+        if r < 0.12:
+            out.append([nm.encode().hex(), "vanished", 0])
+        elif r < 0.18:
+            out.append([nm.encode().hex(), "other", rng.choice([0, 0, 0, 2049])])   # regular file/dir: st_rdev 0; block dev
+        else:
+            nr = rng.choice(nums)
+            if nr in used and rng.random() < 0.8:
+                continue
+            used.add(nr)
+            out.append([nm.encode().hex(), "chr", nr])
+    # glob order: ttys first, then pts (each in arbitrary directory order)
+    out.sort(key=lambda e: bytes.fromhex(e[0]).startswith(b"/dev/pts/"))
+    return out
+
+
+def gen_dev2(rng, dev, tty_nr):
+    """/dev at a LATER moment (the memoised map is not refreshed)"""
+    r = rng.random()
+    d2 = [list(e) for e in dev]
+    if r < 0.35:
+        return d2
+    if r < 0.6 and d2:
+        del d2[rng.randrange(len(d2))]
+        return d2
+    have = {bytes.fromhex(e[0]) for e in d2}
+    for nm in (b"/dev/pts/5", b"/dev/pts/6", b"/dev/tty7"):
+        if nm not in have:
+            d2.append([nm.hex(), "chr", tty_nr if rng.random() < 0.7 else rng.randrange(1, 2 ** 20)])
+            break
+    d2.sort(key=lambda e: bytes.fromhex(e[0]).startswith(b"/dev/pts/"))
+    return d2
+
+
+def gen_procstat(rng, btime):
+    pre = ["cpu  %d %d %d %d 5 6 7 8 9 10" % tuple(rng.randrange(0, 10 ** 6) for _ in range(4))]
+    for i in range(rng.choice([0, 1, 2, 4])):
+        pre.append("cpu%d 1 2 3 4 5 6 7 8 9 10" % i)
+    if rng.random() < 0.8:
+        pre.append("intr %d 0 0 9" % rng.randrange(0, 10 ** 9))
+    if rng.random() < 0.8:
+        pre.append("ctxt %d" % rng.randrange(0, 10 ** 9))
+    if rng.random() < 0.1:
+        pre = []
+    post = ["processes %d" % rng.randrange(1, 10 ** 6), "procs_running 1", "procs_blocked 0", "softirq 5 1 1 1 1 1"]
+    post = post[:rng.choice([0, 1, 4, 4])]
+    if rng.random() < 0.1:
+        post.append("btime 1")          # a later btime line must be ignored: the first one counts
+    return {"pre": [l.encode().hex() for l in pre], "btime": btime, "post": [l.encode().hex() for l in post]}
+
+
+def tid_of(t):
+    return t["rec"]["pid"] if "rec" in t else t["tid"]
+
+
+def add_world(case, rng):
+    """the world around the records: /dev, /proc/stat text, task-directory listing order, vanishing threads"""
+    rec = case["stat"].get("rec")
+    tty = rec["f"][3] if rec else 0
+    case["dev"] = gen_dev(rng, want=[tty] if (tty and rng.random() < 0.7) else [])
+    if rng.random() < 0.3:
+        case["dev2"] = gen_dev2(rng, case["dev"], tty or 34816)
+    case["tmap"] = []
+    case["procstat"] = gen_procstat(rng, case["btime"])
+    if rng.random() < 0.3:
+        case["procstat2"] = gen_procstat(rng, rng.choice([case["btime"] + 1, case["btime"] + 3600, 1, 2 ** 31]))
+    threads = list(case["threads"])
+    if rng.random() < 0.15:
+        # threads that end between listdir() and the read of their stat file
+        have = {tid_of(t) for t in threads}
+        for _ in range(rng.choice([1, 1, 2])):
+            if len(threads) > 1 and rng.random() < 0.5:
+                i = rng.randrange(len(threads))
+                if tid_of(threads[i]) != case["pid"] or rng.random() < 0.3:
+                    threads[i] = {"vanished": True, "tid": tid_of(threads[i])}
+                    continue
+            t = rng.choice([8, 11, 98, 101, 1000, rng.randrange(1, 4194304)])
+            if t not in have:
+                have.add(t)
+                threads.append({"vanished": True, "tid": t})
+        # (the fake procfs keeps serving /proc/<pid>/stat of the "gone" process to _raise_if_zombie(): no 'Z' records here)
+        if rng.random() < 0.25 and rec and rec["state"] != 90:
+            case["alive"] = False
+    case["threads"] = threads
+    listing = [tid_of(t) for t in threads]
+    rng.shuffle(listing)
+    case["listing"] = listing
+    return case
+
+
 def tid_order(threads):
     """psutil sorts the task directory listing as strings"""
     def tid(t):
@@ -230,9 +332,10 @@ def gen_case(rng, family):
             else gen_comm(rng))
         threads.append({"rec": gen_stat_rec(rng, t, style=style, comm=tcomm, ttys=ttys)})
     status = gen_status_rec(rng, comm_b, pid, stat["f"][0], nthr)
-    return separate_main_thread(
+    case = separate_main_thread(
         {"family": family, "pid": pid, "tck": tck, "btime": btime, "tmap": tmap, "stat": {"rec": stat},
          "status": {"rec": status}, "threads": tid_order(threads)}, rng)
+    return add_world(case, rng)
 
 
 GARBAGE = [b"x", b"-", b"12a", b"--1", b"1.5x", b"0x10", b"S", b"\xff", b"1-"]
@@ -289,7 +392,7 @@ def gen_malformed(rng):
                 lines.append(b"nonvoluntary_ctxt_switches:\t%d" % srec["nonvol"])
         case["status"] = {"raw": (b"\n".join(lines) + b"\n").hex()}
     elif kind in ("thread_short", "thread_garbage"):
-        t = case["threads"][rng.randrange(len(case["threads"]))]
+        t = rng.choice([x for x in case["threads"] if "rec" in x])
         trec = t.pop("rec")
         ttoks = [bytes([trec["state"]])] + [str(x).encode() for x in trec["f"]]
         if kind == "thread_short":
@@ -333,19 +436,107 @@ def corpus_cases():
 # ------------------------------------------------------------------------------ implementation side
 
 
+class _FakeStat:
+    """what get_terminal_map may look at in an os.stat() result"""
+    def __init__(self, kind, rdev):
+        self.st_rdev = rdev
+        self.st_mode = (0o020620 if kind == "chr" else 0o100644)
+        self.st_ino, self.st_dev, self.st_nlink, self.st_uid, self.st_gid, self.st_size = 1, 5, 1, 0, 0, 0
+
+
+class _DevWorld:
+    """The abstract /dev of a case. The REAL glob module lists a scratch tree that holds one empty file per
+    entry (so pattern matching is glob's own); the results are handed back as the virtual `/dev/...` paths
+    in the case's listing order; os.stat of a virtual path answers from the case."""
+    def __init__(self):
+        self.root = tempfile.mkdtemp(prefix="psv-c06-dev-")
+        self.entries = {}      # virtual path -> (kind, rdev)
+        self.order = []
+        self.stat_calls = 0
+        self.glob_calls = []
+
+    def set(self, dev):
+        shutil.rmtree(os.path.join(self.root, "dev"), ignore_errors=True)
+        os.makedirs(os.path.join(self.root, "dev", "pts"))
+        # decoys that the patterns must NOT match
+        for decoy in ("dev/console", "dev/ptmx", "dev/null", "dev/pts/.hidden", "dev/xtty9"):
+            open(os.path.join(self.root, decoy), "wb").close()
+        self.entries, self.order = {}, []
+        for hx, kind, rdev in dev or []:
+            path = bytes.fromhex(hx).decode()
+            self.entries[path] = (kind, rdev)
+            self.order.append(path)
+            open(self.root + path, "wb").close()
+
+    def glob(self, pattern, **kw):
+        self.glob_calls.append(pattern)
+        if isinstance(pattern, str) and pattern.startswith("/dev/"):
+            n = len(self.root)
+            found = [p[n:] for p in _real_glob.glob(self.root + pattern, **kw)]
+            pos = {p: i for i, p in enumerate(self.order)}
+            return sorted(found, key=lambda p: pos.get(p, len(pos)))
+        return _real_glob.glob(pattern, **kw)
+
+    def stat(self, path, *a, **kw):
+        if isinstance(path, str) and path.startswith("/dev/"):
+            self.stat_calls += 1
+            kind, rdev = self.entries.get(path, ("vanished", 0))
+            if kind == "vanished":
+                raise FileNotFoundError(2, "No such file or directory", path)
+            return _FakeStat(kind, rdev)
+        return os.stat(path, *a, **kw)
+
+    def close(self):
+        shutil.rmtree(self.root, ignore_errors=True)
+
+
+class _Shim:
+    """module stand-in: the listed attributes are overridden, everything else is the real module's"""
+    def __init__(self, real, **over):
+        self.__dict__["_real"] = real
+        self.__dict__.update(over)
+
+    def __getattr__(self, name):
+        return getattr(self.__dict__["_real"], name)
+
+
 class Impl:
     def __init__(self, ctx):
         self.ps = get_ps(ctx)
         self.plat = self.ps._pslinux
         self.fp = fakeproc.FakeProc(self.ps, prefix="psv-c06-")
         self.saved_tck = self.plat.CLOCK_TICKS
-        self.saved_tmap = self.ps._psposix.get_terminal_map
-        self.tmap = {}
-        self.ps._psposix.get_terminal_map = lambda: self.tmap
+        self.dev = _DevWorld()
+        self.task_dir = None       # path whose os.listdir answer is scripted
+        self.task_listing = None
+        self.gone_path = None      # path whose os.stat raises FileNotFoundError (process gone at the end of threads())
+        posix = self.ps._psposix
+        self.saved = [(posix, "glob", posix.glob), (posix, "os", posix.os), (self.plat, "os", self.plat.os)]
+        posix.glob = _Shim(_real_glob, glob=self.dev.glob)
+        posix.os = _Shim(os, stat=self.dev.stat)
+        self.plat.os = _Shim(os, listdir=self._listdir, stat=self._stat, path=_Shim(os.path, exists=self._exists))
+
+    def _listdir(self, path="."):
+        if self.task_dir is not None and path == self.task_dir:
+            return [str(t) for t in self.task_listing]
+        return os.listdir(path)
+
+    def _exists(self, path):
+        # a process that is gone has no /proc/<pid>/stat either (wrap_exceptions looks there)
+        if self.gone_path is not None and path == self.gone_path + "/stat":
+            return False
+        return os.path.exists(path)
+
+    def _stat(self, path, *a, **kw):
+        if self.gone_path is not None and path == self.gone_path:
+            raise FileNotFoundError(2, "No such file or directory", path)
+        return os.stat(path, *a, **kw)
 
     def close(self):
         self.plat.CLOCK_TICKS = self.saved_tck
-        self.ps._psposix.get_terminal_map = self.saved_tmap
+        for mod, name, old in self.saved:
+            setattr(mod, name, old)
+        self.dev.close()
         self.fp.close()
         fakeproc.reset_psutil_state(self.ps)
 
@@ -356,8 +547,13 @@ class Impl:
         fp.clear()
         fakeproc.reset_psutil_state(ps)
         self.plat.CLOCK_TICKS = case["tck"]
-        self.tmap = {nr: bytes.fromhex(p).decode() for nr, p in case["tmap"]}
-        fp.write("stat", "cpu  1 2 3 4 5 6 7 8 9 10\nctxt 5\nbtime %d\nprocesses 7\n" % case["btime"])
+        dev = case["dev"] if "dev" in case else [[p, "chr", nr] for nr, p in case["tmap"]]
+        self.dev.set(dev)
+        self.task_dir = self.gone_path = None
+        if files.get("procstat") is not None:
+            fp.write("stat", bytes.fromhex(files["procstat"]))
+        else:
+            fp.write("stat", "cpu  1 2 3 4 5 6 7 8 9 10\nctxt 5\nbtime %d\nprocesses 7\n" % case["btime"])
         stat = bytes.fromhex(files["stat"])
         well_formed = "rec" in case["stat"]
         d = "%d/" % pid
@@ -371,11 +567,20 @@ class Impl:
         fp.mkdir(d + "task")
         for tid, hx in files["threads"]:
             fp.write(d + "task/%d/stat" % tid, bytes.fromhex(hx))
+        for t in case["threads"]:
+            if t.get("vanished"):
+                fp.mkdir(d + "task/%d" % t["tid"])       # listed, but its stat file is gone when opened
+        if "listing" in case:
+            self.task_dir = "%s/%d/task" % (fp.root, pid)
+            self.task_listing = case["listing"]
+        gone = case.get("alive") is False
         out = {}
         made = fakeproc.outcome(ps.Process, pid)
         if made["kind"] != "ok":
             return {m: made for m in METHODS_STAT + ["threads"] + (METHODS_STATUS if files.get("status") is not None else [])}
         p = made["value"]
+        if gone:
+            self.gone_path = "%s/%d" % (fp.root, pid)
         if not well_formed:
             fp.write(d + "stat", stat)
             p._create_time = None
@@ -419,11 +624,47 @@ class Impl:
                         out["as_dict:" + m] = {"kind": "exc", "exc": "MissingKey"}
             else:
                 out["as_dict:call"] = r if r["kind"] == "exc" else {"kind": "exc", "exc": "NotADict"}
+        plain_ok = well_formed and all(o["kind"] == "ok" for k, o in out.items() if ":" not in k)
+        # (4) the objects process_iter() hands out, and process_iter(attrs=[...]).info (fresh, then from the
+        #     warm _pmap cache): the fake procfs lists exactly this PID
+        if plain_ok:
+            ps.process_iter.cache_clear()
+            it = fakeproc.outcome(lambda: [q for q in ps.process_iter() if q.pid == pid])
+            if it["kind"] == "ok" and len(it["value"]) == 1:
+                q = it["value"][0]
+                for m in order:
+                    out["iter:" + m] = fakeproc.outcome(getattr(q, m))
+            else:
+                out["iter:call"] = it if it["kind"] == "exc" else {"kind": "exc", "exc": "PidNotYielded"}
+            for tag in ("info", "info2"):
+                if tag == "info":
+                    ps.process_iter.cache_clear()
+                it = fakeproc.outcome(lambda: [q for q in ps.process_iter(attrs=list(order)) if q.pid == pid])
+                if it["kind"] == "ok" and len(it["value"]) == 1 and isinstance(getattr(it["value"][0], "info", None), dict):
+                    info = it["value"][0].info
+                    for m in order:
+                        out[tag + ":" + m] = ({"kind": "ok", "value": info[m]} if m in info
+                                              else {"kind": "exc", "exc": "MissingKey"})
+                else:
+                    out[tag + ":call"] = it if it["kind"] == "exc" else {"kind": "exc", "exc": "PidNotYielded"}
+        # (5) BOOT_TIME is pinned by now: /proc/stat changes (clock step), a NEW Process object is asked
+        if files.get("procstat2") is not None and well_formed:
+            fp.write("stat", bytes.fromhex(files["procstat2"]))
+            q = fakeproc.outcome(ps.Process, pid)
+            out["create_time_pinned"] = fakeproc.outcome(q["value"].create_time) if q["kind"] == "ok" else q
+        # (6) /dev changes after get_terminal_map() was memoised
+        if "dev2" in case and well_formed:
+            self.dev.set(case["dev2"])
+            out["terminal_stale"] = fakeproc.outcome(p.terminal)
         return out
+
+
+BASE_METHOD = {"terminal_stale": "terminal", "create_time_pinned": "create_time"}
 
 
 def canon_impl(m, o):
     """implementation outcome → JSON-comparable structure (floats stay floats)"""
+    m = BASE_METHOD.get(m, m)
     if o["kind"] == "exc":
         return {"exc": o["exc"]}
     v = o["value"]
@@ -463,6 +704,7 @@ def agrees(m, impl, exp):
     """does the canonical implementation outcome equal the model/spec outcome `exp`?"""
     if exp is None:
         return True
+    m = BASE_METHOD.get(m, m)
     if "exc" in exp or "exc" in impl:
         if m == "status" and "ok" in exp and isinstance(exp["ok"], dict) and exp["ok"].get("nonascii"):
             return impl in ({"exc": "UnicodeDecodeError"}, {"ok": "?"})
@@ -470,6 +712,9 @@ def agrees(m, impl, exp):
     a, b = impl["ok"], exp["ok"]
     if m == "status" and isinstance(b, dict):
         return a == "?"
+    if m == "terminal" and isinstance(b, dict) and "any_of" in b:
+        # Spec.TerminalOk: the path of SOME character device with that number; None iff there is none
+        return (a is None and not b["any_of"]) or a in b["any_of"]
     if m == "cpu_times":
         return isinstance(a, list) and len(a) == 5 and all(close(x, q) for x, q in zip(a, b))
     if m == "create_time":
@@ -481,9 +726,46 @@ def agrees(m, impl, exp):
     return a == b
 
 
+def fix_listing(case):
+    """keep `listing` (os.listdir order) consistent with the thread set after a case was edited"""
+    tids = [tid_of(t) for t in case["threads"]]
+    if "listing" in case and sorted(case["listing"]) != sorted(tids):
+        case["listing"] = sorted(tids, reverse=True)
+    if case.get("alive") is False and not any(t.get("vanished") for t in case["threads"]):
+        case.pop("alive")
+    return case
+
+
 def line_of(case):
-    return {"op": "proc", "tck": case["tck"], "btime": case["btime"], "tmap": case["tmap"], "stat": case["stat"],
-            "status": case.get("status"), "threads": case["threads"]}
+    fix_listing(case)
+    d = {"op": "proc", "tck": case["tck"], "btime": case["btime"], "tmap": case["tmap"], "stat": case["stat"],
+         "status": case.get("status"), "threads": case["threads"]}
+    for k in ("dev", "dev2", "procstat", "procstat2", "listing", "alive"):
+        if k in case:
+            d[k] = case[k]
+    return d
+
+
+FIND_NONDEV = "C06-terminal-nondevice"
+FIND_STALE = "C06-terminal-stale"
+
+
+def finding_of(case, key, ci, mo, sp):
+    """Known-finding regions (findings/C06.json). Only for rows where the implementation does what the MODEL says
+    and the model is what the proved counterexamples describe."""
+    m = key.split(":")[-1]
+    if BASE_METHOD.get(m, m) != "terminal" or mo is None or not agrees(m, ci, mo):
+        return None
+    rec = case["stat"].get("rec")
+    if not rec:
+        return None
+    tty = rec["f"][3]
+    devs = list(case.get("dev", [])) + (list(case.get("dev2", [])) if m == "terminal_stale" else [])
+    if any(k == "other" and r == tty for _, k, r in devs):
+        return FIND_NONDEV          # a non-device file whose st_rdev equals the tty number (0 = no terminal)
+    if m == "terminal_stale":
+        return FIND_STALE           # /dev changed after get_terminal_map() was memoised
+    return None
 
 
 def evaluate(impl, case, ans):
@@ -555,6 +837,25 @@ def case_features(case):
     else:
         f.add("stat:raw")
     f.add("threads:%s" % ("1" if len(case["threads"]) == 1 else "n"))
+    kinds = {k for _, k, _ in case.get("dev", [])}
+    for k in kinds:
+        f.add("dev:" + k)
+    if "dev" in case and not case["dev"]:
+        f.add("dev:empty")
+    if len({r for _, k, r in case.get("dev", []) if k == "chr"}) < len([1 for _, k, _ in case.get("dev", []) if k == "chr"]):
+        f.add("dev:two-names-one-device")
+    if "dev2" in case:
+        f.add("dev2:changed" if case["dev2"] != case["dev"] else "dev2:same")
+    if "procstat2" in case:
+        f.add("procstat2:clock-step")
+    if any(t.get("vanished") for t in case["threads"]):
+        f.add("threads:vanished-mid-scan")
+        if case.get("alive") is False:
+            f.add("threads:process-gone-at-end")
+    if "listing" in case and len(case["listing"]) > 1:
+        f.add("listing:in-name-order" if case["listing"] == sorted(case["listing"], key=str) else "listing:not-in-name-order")
+        if sorted(case["listing"], key=str) != sorted(case["listing"]):
+            f.add("listing:name-order!=numeric-order")
     for t in case["threads"]:
         if "rec" in t and b")" in bytes.fromhex(t["rec"]["comm"]):
             f.add("thread-comm:rparen")
@@ -583,6 +884,11 @@ def record(res, case, rows, source):
         res.count("observed:" + (m.split(":")[0] if ":" in m else "plain"))
     for m, ci, mo, sp, kind in rows:
         if kind == "spec":
+            fid = finding_of(case, m, ci, mo, sp)
+            if fid:
+                res.known_seen[fid] = res.known_seen.get(fid, 0) + 1
+                res.count("known-finding:" + fid)
+                continue
             res.disagree("spec", {"case": case, "method": m, "source": source}, ci, mo, sp,
                          note="%s(): implementation differs from what the kernel record promises" % m)
             return True
@@ -691,13 +997,16 @@ def search(ctx, res, broken):
 # ------------------------------------------------------------------------------ shrink / replay
 
 
-def _violates(impl, drv, case, method=None):
+def _violates(impl, drv, case, method=None, known=None):
+    """first spec-level disagreement of `case` (outside the known-finding regions; `known` = a finding id:
+    only inside that region)"""
     ans = drv.ask(line_of(case))
     if "bad" in ans:
         return None
     for m, ci, mo, sp, kind in evaluate(impl, case, ans):
         if kind == "spec" and (method is None or m == method):
-            return (m, ci, mo, sp)
+            if finding_of(case, m, ci, mo, sp) == known:
+                return (m, ci, mo, sp)
     return None
 
 
@@ -794,7 +1103,7 @@ def check_finding(ctx, fnd):
     impl = Impl(ctx)
     drv = ctx.driver().start()
     try:
-        return "reproduces" if _violates(impl, drv, case, w.get("method")) else "gone"
+        return "reproduces" if _violates(impl, drv, case, w.get("method"), known=fnd.get("id")) else "gone"
     finally:
         drv.close()
         impl.close()
